@@ -88,54 +88,3 @@ fn k_clone_cell() {
         && cell.angle.get_value().to_bits() == a0.to_bits());
     kani::cover!(true);
 }
-
-fn sin_model(x: f64) -> f64 { if x == 0.5 { 1. } else { let r: f64 = kani::any(); kani::assume(-1. <= r && r <= 1.); r } }
-fn cos_model(x: f64) -> f64 { if x == 0.5 { 0. } else { let r: f64 = kani::any(); kani::assume(-1. <= r && r <= 1.); r } }
-
-/// K:k_images_<k> — C14 (BOUNDED: shells = k fixed per harness, integer lattice a = 1, b = 2, cos = 0, sin = 1):
-/// periodic_images yields exactly the (2k+1)^2 translates n*A + m*B, |n|,|m| <= k, each once (the untranslated one
-/// only when asked), orientation unchanged.  sin/cos are pinned by a deterministic stub so the lattice is exact.
-fn images_check(shells: i64) {
-    let cell = Cell2 { length: SharedValue::new(1.), ratio: SharedValue::new(2.), angle: SharedValue::new(0.5), family: CrystalFamily::Monoclinic };
-    let zero: bool = kani::any();
-    let t = Transform2::new(0., (0.25, -0.5));
-    // a symbolically chosen lattice vector: how many times is it produced?
-    let (n, m): (i64, i64) = (kani::any(), kani::any());
-    kani::assume(-4 <= n && n <= 4 && -4 <= m && m <= 4);
-    let mut count = 0;
-    let mut total = 0;
-    for img in cell.periodic_images(t, shells, zero) {
-        let p = img.position();
-        if p.x == 0.25 + n as f64 && p.y == (-0.5 + m as f64) * 2. { count += 1; }
-        // orientation unchanged
-        let mm: nalgebra::Matrix3<f64> = img.into();
-        assert!(mm[(0, 0)] == 1. && mm[(1, 1)] == 1. && mm[(0, 1)] == 0. && mm[(1, 0)] == 0.);
-        total += 1;
-    }
-    let inside = -shells <= n && n <= shells && -shells <= m && m <= shells;
-    let expected = if inside && (zero || n != 0 || m != 0) { 1 } else { 0 };
-    assert!(count == expected);
-    assert!(total == (2 * shells + 1) * (2 * shells + 1) - if zero { 0 } else { 1 });
-    kani::cover!(n == shells && m == -shells);
-    kani::cover!(zero && n == 0 && m == 0);
-}
-#[kani::proof]
-#[kani::unwind(5)]
-#[kani::stub(f64::sin, sin_model)]
-#[kani::stub(f64::cos, cos_model)]
-fn k_images_0() { images_check(0); }
-#[kani::proof]
-#[kani::unwind(11)]
-#[kani::stub(f64::sin, sin_model)]
-#[kani::stub(f64::cos, cos_model)]
-fn k_images_1() { images_check(1); }
-#[kani::proof]
-#[kani::unwind(27)]
-#[kani::stub(f64::sin, sin_model)]
-#[kani::stub(f64::cos, cos_model)]
-fn k_images_2() { images_check(2); }
-#[kani::proof]
-#[kani::unwind(51)]
-#[kani::stub(f64::sin, sin_model)]
-#[kani::stub(f64::cos, cos_model)]
-fn k_images_3() { images_check(3); }
